@@ -155,10 +155,10 @@ PROPS = {
         'design_ref': 'DESIGN.md §7 C03',
     },
     'C04': {
-        'level_text': "Proof (success_trace): whenever the generated method returns Ok, for any hook environment, the hooks invoked are exactly around-Before, guards, unless, before (source-typed machine), after (target-typed machine), around-AfterSuccess, each declared hook once in declaration order, each handed the machine's own context and the caller's payload; result typed in the target with the same context. RefineTrace.step_trace restates it against the abstract machine at the level of handle: nothing is called without an edge, the documented list when it fires, the around Before stages and the conditions up to the first blocker when refused.",
+        'level_text': "Proof (success_trace): whenever the generated method returns Ok, for any hook environment, the hooks invoked are exactly around-Before, guards, unless, before (source-typed machine), after (target-typed machine), around-AfterSuccess, each declared hook once in declaration order, each handed the machine's own context and the caller's payload; result typed in the target with the same context. RefineTrace.step_trace restates it against the abstract machine at the level of handle: nothing is called without an edge, the documented list when it fires, the around Before stages and the conditions up to the first blocker when refused. RefineTraceHist.calls_refine lifts it to histories: the hooks a whole history of dispatches calls, by kind and name and in order, are the concatenation of the abstract machine's per-dispatch lists.",
         'level_note': "Order of event-level before transition-level hooks is the order of the edge's merged lists (edgesOfSource, tied by T1). Tie: T2 regions FE AB GC BC CN AC AA.",
         'title': 'Success path runs every hook exactly once in the documented order',
-        'modules': ['SMV.Props.C04', 'SMV.Props.RefineTrace'],
+        'modules': ['SMV.Props.C04', 'SMV.Props.RefineTrace', 'SMV.Props.RefineTraceHist'],
         'regions': ['FE', 'AB', 'GC', 'BC', 'CN', 'AC', 'AA'],
         't3': ['assign', 'walk'],
         'design_ref': 'DESIGN.md §7 C04',
